@@ -206,6 +206,7 @@ func (s *setupWorker) setup(ctx context.Context, m transport.Metadata) error {
 		decoder: decoder.New(),
 		manager: s.manager,
 	}
+	session.ExtendDeadline()
 	go worker.serve(ctx, session)
 	return s.encoder.ConnAck(c, &packet.ConnAck{
 		Header:     connectPkt.Header,
